@@ -76,12 +76,12 @@ func (in *Interp) eq(site ssa.Instruction, a, b Value) *sym.Term {
 				return c.Bool(bs.Nil)
 			}
 			if bb, ok := b.(*Blob); ok {
-				return c.Bool(bb.IsNil)
+				return bb.IsNil
 			}
 		}
 	case *Blob:
 		if bs, ok := b.(Slice); ok && bs.Nil {
-			return c.Bool(a.IsNil)
+			return a.IsNil
 		}
 	case Iface:
 		bi := b.(Iface)
@@ -495,9 +495,6 @@ func (in *Interp) lenOf(site ssa.Instruction, v Value) *sym.Term {
 	case Slice:
 		return c.Const(uint64(len(v.Arr)), 64)
 	case *Blob:
-		if v.IsNil {
-			return c.Const(0, 64)
-		}
 		return v.Len
 	case *Map:
 		if v == nil {
